@@ -205,6 +205,16 @@ def run(tier, seed):
         if rc != 0:
             raise v.ToolError("fxv freespace (random) failed: " + se[-500:])
         traces.append((trace, hi, "rand%d" % i, calls))
+    # ---- sparse use of large devices (long free run next to small holes: percentages round, runs do not)
+    for i, nblk in enumerate([300, 1000] if tier == "quick" else [150, 300, 500, 1000, 2000, 4000]):
+        trace = os.path.join(rd, "sparse_%d.ndjson" % i)
+        calls = 600 if tier == "quick" else 1500
+        rc, so, se = v.run_cmd([fxv, "freespace", "--hi", str(16 + nblk), "--seed", str(rng.randrange(1 << 30)),
+                                "--calls", str(calls), "--maxreq", str([2, 5, 3][i % 3]), "--maxheld", str(3 + i % 4),
+                                "--slack", "0", "--out", trace], timeout=300)
+        if rc != 0:
+            raise v.ToolError("fxv freespace (sparse) failed: " + se[-500:])
+        traces.append((trace, 16 + nblk, "sparse%d" % i, calls))
     # ---- validate all traces with TLC
     def val(t):
         trace, hi, tag, n = t
